@@ -229,27 +229,36 @@ where
 
     // We accumulate all validity checks into single branches at the end in order to
     // keep the loop itself branchless.
-    let mut laps_or_zeros = 0usize;
+    let mut zeros = 0usize;
+    let mut laps = 0usize;
+    let mut count = 0usize;
     let mut accum = Probability::zero();
 
     for probability in probabilities {
         let old_accum = accum;
         accum = accum.wrapping_add(probability.borrow());
-        laps_or_zeros += (accum <= old_accum) as usize;
+        zeros += (*probability.borrow() == Probability::zero()) as usize;
+        laps += (accum < old_accum) as usize;
+        count += 1;
         let symbol = symbols.next().ok_or(())?;
         operation(symbol, old_accum, *probability.borrow())?;
     }
 
+    // `total` wraps around to zero if `PRECISION == Probability::BITS`.
     let total = wrapping_pow2::<Probability>(PRECISION);
+    let full_precision = PRECISION == Probability::BITS;
 
     if infer_last_probability {
-        if accum >= total || laps_or_zeros != 0 {
+        // The provided probabilities must sum up to strictly less than `1 << PRECISION`
+        // (without wrapping), and there must be at least one of them since we don't
+        // support degenerate distributions that put all probability mass on one symbol.
+        if zeros != 0 || laps != 0 || count == 0 || (!full_precision && accum >= total) {
             return Err(());
         }
         let symbol = symbols.next().ok_or(())?;
         let probability = total.wrapping_sub(&accum);
         operation(symbol, accum, probability)?;
-    } else if accum != total || laps_or_zeros != (PRECISION == Probability::BITS) as usize {
+    } else if zeros != 0 || count < 2 || accum != total || laps != full_precision as usize {
         return Err(());
     }
 
